@@ -8,7 +8,7 @@
     [ref_resolve p]       (A), the reference resolver of C13;  [ord_resolve], (A) with declarations identified by
                           their ordinal in source order;  [alpha d y p], the program with the declaration [d] and the
                           uses (A) resolves to it renamed to [y]. *)
-From EV Require Import C13.Model C13.Corr C14.Model C14.Refs C14.Agree C14.Corr C14.Proofs.
+From EV Require Import C13.Model C13.Corr C14.Model C14.Refs C14.Tokens C14.Agree C14.Corr C14.Proofs.
 Local Open Scope N_scope.
 
 (** The cells of a declaration are exactly the positions the reference index resolves to it
@@ -30,19 +30,33 @@ Theorem refs_only_resolved : forall (p : program) (u d : N) (x : name),
   In (u, Some d) (ref_resolve p).
 Proof. exact Proofs.refs_only_resolved. Qed.
 
-(** The edits of a rename: one edit per position, the positions are the declaration and its references and nothing
-    else, each edit replaces a range of the length of the old name by the new name.
-    (Full statement of the property also demands that the ranges are pairwise disjoint: that is the separation of
-    the name tokens of the printed program, rename_edits_disjoint — checked per case by the search, proved here only
-    as pairwise different starts: rename_edits_exact is the [_partial] form of that clause.) *)
+(** The edits of a rename ([x] is the name of the declaration at [d]): their ranges are the range of the declaration
+    token and the ranges of the cells of the declaration and nothing else; their starts are the declaration and the
+    positions the reference index resolves to it; no range occurs twice; every edit carries the new name. *)
 Theorem rename_edits_exact : forall (p : program) (d : N) (x new : name),
   let st := walk_program p in
   let es := impl_rename st d x new in
-  (forall q, In q (map edit_start es) <-> q = d \/ In q (decl_cells st d)) /\
+  (forall r, In r (map edit_range es) <-> r = (d, d + nlen x) \/ In r (decl_cell_ranges st d)) /\
   (forall q, In q (map edit_start es) <-> q = d \/ resolve_B st q = Some d) /\
-  NoDup (map edit_start es) /\
-  Forall (fun e => e = (edit_start e, edit_start e + nlen x, new)) es.
+  NoDup (map edit_range es) /\
+  Forall (fun e => snd e = new) es.
 Proof. exact Proofs.rename_edits_exact. Qed.
+
+(** Every cell of the reference index is the range of a name token of the printed program (the range of the
+    referring token is carried by the model's reference map, as in FileReference). *)
+Theorem cells_are_tokens : forall (p : program) (d : N) (r : N * N),
+  In r (decl_cell_ranges (walk_program p) d) ->
+  exists x, In (fst r, x) (toks_block p 0) /\ snd r = fst r + nlen x.
+Proof. exact Proofs.cells_are_tokens. Qed.
+
+(** The ranges edited by a rename of the declaration token [d] (a name token of the program, named [x]) are
+    pairwise disjoint: two different edits never overlap. *)
+Theorem rename_edits_disjoint : forall (p : program) (d : N) (x new : name),
+  In (d, x) (toks_block p 0) ->
+  forall e1 e2, In e1 (impl_rename (walk_program p) d x new) -> In e2 (impl_rename (walk_program p) d x new) ->
+  edit_range e1 <> edit_range e2 ->
+  snd (edit_range e1) <= fst (edit_range e2) \/ snd (edit_range e2) <= fst (edit_range e1).
+Proof. exact Proofs.rename_edits_disjoint. Qed.
 
 (** Alpha-renaming: renaming a declaration that has a token (ordinal [d]) and exactly the uses that Lua scoping
     resolves to it, to a name that no variable of the program carries, leaves the resolution of every use unchanged
@@ -79,6 +93,6 @@ Example rename_example :
   /\ ord_resolve (alpha 0 9001 p) = ord_resolve p
   /\ real_decl p 0 /\ fresh 9001 p
   /\ check_case {| c_prog := p; c_text := pr_program p; c_fresh := 9001;
-                   c_decls := [{| o_pos := 6; o_name := 0; o_cells := [25; 38];
+                   c_decls := [{| o_pos := 6; o_name := 0; o_cells := [(25, 26); (38, 39)];
                                   o_edits := [(6, 7, 9001); (25, 26, 9001); (38, 39, 9001)] |}] |} = true.
 Proof. exact Proofs.rename_example. Qed.
